@@ -283,7 +283,7 @@ func runC26(c *fw.Ctx) {
 		if !isDir(k1) {
 			continue
 		}
-		swaps := []string{"->/outside", "->.git", "->../outside"}
+		swaps := []string{"->/outside", "->.git", "->../outside", "->.git/config", "->/outside/x"}
 		if isDeep(k1) {
 			swaps = append(swaps, "deep->.git", "deep->/outside")
 		}
@@ -744,7 +744,7 @@ func c26OSFS(c *fw.Ctx, kinds []c26Kind, absent int) {
 			}
 		}
 		if strings.HasPrefix(kinds[k1].name, "dir") {
-			for _, sw := range []string{"->.git", "->../outside"} {
+			for _, sw := range []string{"->.git", "->../outside", "->.git/config", "->../outside/x"} {
 				for _, script := range []string{"force", "merge", "pick"} {
 					cases = append(cases, c26Case{"a", k1, absent, "", sw, true, false, script})
 					cases = append(cases, c26Case{"a", k1, 0, "", sw, true, false, script})
